@@ -2,7 +2,7 @@
 
   chia-consensus/src/consensus_constants.rs   TEST_CONSTANTS.cost_per_byte, .max_block_cost_clvm
   chia-consensus/src/run_block_generator.rs   MAX_CONDITIONS_PER_SPEND; the `0, // clvm_cost` argument of the
-                                              legacy path; which ROM/deserializer constants are used
+                                              legacy path; position of its SIMPLE_GENERATOR reference check; which ROM/deserializer constants are used
   chia-consensus/src/generator_cost.rs        the interned_vbytes weight expression
   chia-protocol/src/spend_bundle.rs           budget and CREATE_COIN cost of SpendBundle::additions
   chia-puzzles (version pinned by /repo/Cargo.lock, offline registry)
@@ -66,6 +66,16 @@ def generate(repo):
     if "parse_spends::<EmptyVisitor>( &a, generator_output, cost_left, 0, flags," not in legacy:
         raise TieBroken("run_block_generator: the parse_spends call (clvm_cost argument 0) changed shape")
     out += "Definition LEGACY_CLVM_COST_PER_SPEND : N := 0.\n"
+    # position of the SIMPLE_GENERATOR block-reference check of the legacy path (mirrored by check_simple_refs):
+    # after check_generator_node, before the references are consed and the ROM runs
+    i1 = legacy.find("check_generator_node(&a, program, flags)?;")
+    i2 = legacy.find("flags.contains(ConsensusFlags::SIMPLE_GENERATOR) && block_refs.peek().is_some()")
+    i3 = legacy.find("ErrorCode::TooManyGeneratorRefs")
+    i4 = legacy.find("a.new_atom(g.as_ref())?;")
+    i5 = legacy.find("run_program(&mut a, &dialect, rom_generator, args, cost_left)?;")
+    if not (0 <= i1 < i2 < i3 < i4 < i5):
+        raise TieBroken("run_block_generator: the SIMPLE_GENERATOR block-reference check is missing or moved "
+                        "(expected after check_generator_node and before the ROM arguments are built)")
 
     src = strip_comments(read(repo, "crates/chia-consensus/src/generator_cost.rs"))
     body = norm_ws(fn_body(src, r"pub fn interned_vbytes\(tree: &InternedTree\) -> u64 \{", "interned_vbytes"))
